@@ -5,7 +5,7 @@ set -u
 export GOFLAGS=-mod=mod GOPROXY=off GOSUMDB=off GOTOOLCHAIN=local
 S=$(realpath "$1"); W=/tmp/confirm_$$
 git -C /repo worktree add -q --detach $W HEAD || exit 2
-trap 'git -C /repo worktree remove --force $W >/dev/null 2>&1' EXIT
+trap 'git -C /repo worktree remove --force $W >/dev/null 2>&1; rm -f /tmp/confirm_run_$$.sh' EXIT
 cd $W
 git apply "$S/patch.diff" || { echo "CONFIRM: patch does not apply"; exit 1; }
 go build ./... || { echo "CONFIRM: build fails"; exit 1; }
@@ -19,16 +19,16 @@ for f in m['files_changed']:
 print(' '.join(sorted(ds)))")
 echo "CONFIRM: existing tests of $PKGS with change:"
 go test -vet=off -count=1 -timeout 20m $PKGS 2>&1 | grep -v "^DEBUG\|^TRACE\|^ERROR\|^\s" | tail -5
-python3 - "$S" <<'PY'
+python3 - "$S" /tmp/confirm_run_$$.sh <<'PY'
 import json,sys,shutil,os
 S=sys.argv[1]
 m=json.load(open(S+'/meta.json'))
 for f,d in m['demo']['files'].items():
     shutil.copy(os.path.join(S,f), os.path.join(d,f))
-open('/tmp/confirm_run.sh','w').write(m['demo']['run']+'\n')
+open(sys.argv[2],'w').write(m['demo']['run']+'\n')
 PY
 echo "CONFIRM: demo WITH change:"
-bash /tmp/confirm_run.sh 2>&1 | grep -v "^DEBUG\|^TRACE\|^ERROR" | grep "^--- \|^ok\|^FAIL\|^PASS" | head -8
+bash /tmp/confirm_run_$$.sh 2>&1 | grep -v "^DEBUG\|^TRACE\|^ERROR" | grep "^--- \|^ok\|^FAIL\|^PASS" | head -8
 git apply -R "$S/patch.diff"
 echo "CONFIRM: demo WITHOUT change:"
-bash /tmp/confirm_run.sh 2>&1 | grep -v "^DEBUG\|^TRACE\|^ERROR" | grep "^--- \|^ok\|^FAIL\|^PASS" | head -8
+bash /tmp/confirm_run_$$.sh 2>&1 | grep -v "^DEBUG\|^TRACE\|^ERROR" | grep "^--- \|^ok\|^FAIL\|^PASS" | head -8
